@@ -30,6 +30,24 @@ pub fn recasings(lang: &text2num::Language, l: L, words: &[&str]) -> Vec<(&'stat
         ("OTHER words upper", words.iter().zip(&is_num).map(|(w, n)| if !*n { w.to_uppercase() } else { w.to_string() }).collect()),
         ("all lower", words.iter().map(|w| w.to_lowercase()).collect()),
         ("only non-ASCII letters upper", words.iter().map(|w| w.chars().map(|c| if c.is_ascii() { c.to_string() } else { c.to_uppercase().collect::<String>() }).collect::<String>()).collect()),
+        // capitals that no upper-casing routine produces but that lower-case to a vocabulary letter:
+        // U+1E9E CAPITAL SHARP S, U+212A KELVIN SIGN, U+212B ANGSTROM SIGN
+        (
+            "UPPER with the alternate capitals",
+            words
+                .iter()
+                .map(|w| {
+                    w.chars()
+                        .map(|c| match c {
+                            'ß' => "\u{1e9e}".to_string(),
+                            'k' | 'K' => "\u{212a}".to_string(),
+                            'å' | 'Å' => "\u{212b}".to_string(),
+                            _ => c.to_uppercase().collect::<String>(),
+                        })
+                        .collect::<String>()
+                })
+                .collect(),
+        ),
     ]
 }
 
@@ -131,6 +149,16 @@ pub fn run(tier: Tier) -> i32 {
         // every single vocabulary word, all recasings
         let mut full = vocab::sigma_full(l);
         full.retain(|w| w.chars().any(|c| c.is_alphabetic()));
+        // long single-token numbers (compounds, fully hyphenated spellings): six-digit numbers in every variant
+        for n in [243_724u64, 777_777, 999_999, 123_456, 757_757] {
+            for (_, v) in crate::spell::axes(l) {
+                for w in crate::spell::spell(l, n, v).split(' ') {
+                    if w.len() > 30 && !full.iter().any(|x| x == w) {
+                        full.push(w.to_string());
+                    }
+                }
+            }
+        }
         total.merge(explore::all_sequences(&full, tier.pick(1, 2), |syms, acc| one_stream(&ctx, acc, l, &lang, syms, &[0.0, 10.0])));
         let a1 = alphabet(l, n1);
         let a2 = alphabet(l, n2);
@@ -145,7 +173,7 @@ pub fn run(tier: Tier) -> i32 {
     }
     let cov = json!({
         "exhaustive": true,
-        "rule": "every word sequence of length <= k over the class alphabet (+ every vocabulary word alone) in 7 recasings (UPPER, Title, alternating, only number words upper, only other words upper, all lower, only non-ASCII letters upper; the alphabet contains words with capitals whose lower-case form has another UTF-8 length: KELVIN SIGN (shorter) and U+023A (longer)), kept when lower(recase(s)) = lower(s); token path, text path and validator compared with the lower-case original at every threshold; non-trivial = (sequence, recasing) pairs actually different from the original",
+        "rule": "every word sequence of length <= k over the class alphabet (+ every vocabulary word alone) in 8 recasings (UPPER, Title, alternating, only number words upper, only other words upper, all lower, only non-ASCII letters upper, UPPER with the alternate capitals U+1E9E / KELVIN SIGN / ANGSTROM SIGN; long single-token six-digit numbers are among the single words; the alphabet contains words with capitals whose lower-case form has another UTF-8 length: KELVIN SIGN (shorter) and U+023A (longer)), kept when lower(recase(s)) = lower(s); token path, text path and validator compared with the lower-case original at every threshold; non-trivial = (sequence, recasing) pairs actually different from the original",
         "bounds": {"wide_alphabet": n1, "wide_depth": k1, "deep_alphabet": n2, "deep_depth": k2},
         "thresholds": T.iter().map(|t| thr_name(*t)).collect::<Vec<_>>(),
         "alphabets": alphas,
